@@ -78,7 +78,7 @@ var msmThresholds = []int{49, 129, 321, 769, 1793, 4097, 9217, 20481}
 func genC09(t *rapid.T) c09Case {
 	c := c09Case{
 		API:        rapid.SampledFrom([]string{"element", "element", "bandersnatch", "multiscalar"}).Draw(t, "api"),
-		ScalarMode: rapid.SampledFrom([]string{"uniform", "uniform", "zero", "small", "mixsmall15", "mixsmall5", "recipes", "recipes", "limbs", "onehot", "word", "word", "paired_same", "paired_neg"}).Draw(t, "scalars"),
+		ScalarMode: rapid.SampledFrom([]string{"uniform", "uniform", "zero", "small", "mixsmall15", "mixsmall5", "recipes", "recipes", "limbs", "onehot", "word", "word", "paired_same", "paired_neg", "allsame"}).Draw(t, "scalars"),
 		PointMode:  rapid.SampledFrom([]string{"pool", "pool", "pool", "dup", "identity", "rep", "tieZ", "negpairs", "samepairs"}).Draw(t, "points"),
 		Seed:       rapid.Uint64().Draw(t, "seed"),
 		Mont:       rapid.Bool().Draw(t, "mont"),
@@ -117,6 +117,12 @@ func genC09(t *rapid.T) c09Case {
 func (c c09Case) msmScalar(j int) *big.Int {
 	h := hx.Expand(c.Seed, "msmsc", j)
 	switch c.ScalarMode {
+	case "allsame": // every term carries the same scalar
+		v := hx.Expand(c.Seed, "msmsc", 0)
+		if c.Seed%3 == 0 {
+			return scalarSpec{Kind: "limbs", Seed: c.Seed, Digits: []int{int(c.Seed % 7), int(c.Seed / 7 % 7), int(c.Seed / 49 % 7), int(c.Seed / 343 % 7)}}.value()
+		}
+		return v.Mod(v, ref.R)
 	case "paired_same", "paired_neg": // neighbours share their scalar (or its negative): with paired points their terms cancel or double
 		v := hx.Expand(c.Seed, "msmsc", j&^1)
 		v.Mod(v, ref.R)
